@@ -7,16 +7,59 @@ import sys
 from common import LEAN, REPO
 
 
+def cpp_unpack_table_compiled():
+    """(mask, shift) of every output block of the COMPILED unpack kernel (built from the working tree), read off its
+    behaviour on the complete byte domain: block k of `unpack(arange(256), bits)` must be `(b & mask) >> shift` for all 256 b.
+    Independent of how the C++ source is written; returns None when the extension cannot be built."""
+    try:
+        import torch
+        import c04
+        c04.ensure_cpp_ext()
+    except Exception:  # noqa
+        return None
+    x = torch.arange(256, dtype=torch.uint8)
+    out, routes = {}, []
+    for bits in range(1, 9):
+        try:
+            y = torch.ops.quanto_ext.unpack(x, bits)
+        except Exception:  # noqa
+            continue
+        if y.ndim != 1 or y.numel() % 256:
+            out[bits] = [(0, 0)]
+            routes.append((str(bits), str(bits)))
+            continue
+        tbl = []
+        for k in range(y.numel() // 256):
+            f = y[k * 256:(k + 1) * 256].to(torch.int64).tolist()
+            found = None
+            for shift in range(8):
+                mask = 0
+                for bit in range(8):      # input bits that influence this block
+                    if any(f[b] != f[b ^ (1 << bit)] for b in range(256)):
+                        mask |= 1 << bit
+                if all(f[b] == ((b & mask) >> shift) for b in range(256)):
+                    found = (mask, shift)
+                    break
+            tbl.append(found if found is not None else (0, 255))      # 255: not a mask-and-shift at all
+        out[bits] = tbl
+        routes.append((str(bits), str(bits)))
+    return out, routes
+
+
 def cpp_unpack_table():
-    """literal masks and shifts of library/ext/cpp/unpack.cpp, per bit width"""
+    """literal masks and shifts of library/ext/cpp/unpack.cpp, per bit width (fallback: source text)"""
+    compiled = cpp_unpack_table_compiled()
+    if compiled is not None:
+        return compiled
     src = open(os.path.join(REPO, "optimum/quanto/library/ext/cpp/unpack.cpp")).read()
     out = {}
     for bits in (2, 4):
         m = re.search(rf"unpack_{bits}bit\s*\(.*?\)\s*\{{(.*?)\n\}}", src, flags=re.S)
         body = m.group(1) if m else ""
         tbl = []
-        for mm in re.finditer(r"\(\s*t\s*&\s*(0x[0-9A-Fa-f]+|\d+)\s*\)(?:\s*\.__rshift__\(\s*(\d+)\s*\))?", body):
-            tbl.append((int(mm.group(1), 0), int(mm.group(2) or 0)))
+        # any identifier for the tensor; the shift written as a method call or as an operator
+        for mm in re.finditer(r"\(\s*\w+\s*&\s*(0x[0-9A-Fa-f]+|\d+)\s*\)(?:\s*(?:\.__rshift__\(\s*(\d+)\s*\)|>>\s*(\d+)))?", body):
+            tbl.append((int(mm.group(1), 0), int(mm.group(2) or mm.group(3) or 0)))
         out[bits] = tbl
     # which widths does the switch route, and to what
     routes = re.findall(r"case\s+(\d+)\s*:\s*return\s+unpack_(\d)bit", src)
@@ -131,7 +174,7 @@ def render():
     tbl, routes = cpp_unpack_table()
     lines = ["/- GENERATED by harness/extract.py from /repo's working tree on every check run. Do not edit. -/",
              "namespace Quanto.Generated", ""]
-    lines.append("/-- (mask, right shift) of every term of the `torch::cat` in unpack.cpp, per bit width as routed by `unpack()` -/")
+    lines.append("/-- (mask, right shift) of every output block of the compiled C++ unpack kernel, per routed bit width: read off the kernel's behaviour on all 256 byte values (source text of unpack.cpp when the extension cannot be built) -/")
     lines.append("def cppUnpackTable : Nat → List (Nat × Nat)")
     for case, fn in routes:
         t = tbl.get(int(fn), [])
